@@ -735,9 +735,11 @@ def c03_h(ctx):
     ctx.check(gok, out, 'state key copied only when present', "if '_output' in state: ...",
               'a state key is copied under a test of another (or the negated) key', fn=out,
               node=out.node)
-    r_both = any(any(pol and g[0] == 'bool' and g[1] == 'and' and
-                     contains(g, "'_output' in _") and contains(g, "'_operation' in _")
-                     for (g, pol, _) in ctx.guards(out, r)) for r in ctx.stmts(out, ast.Raise))
+    def _pos(r, pat):
+        return any(pol and g[0] != 'bool' and match(g, pattern(pat)) is not None
+                   for (g, pol, _) in ctx.guards(out, r))
+    r_both = any(_pos(r, "'_output' in _") and _pos(r, "'_operation' in _")
+                 for r in ctx.stmts(out, ast.Raise))
     ctx.check(r_both, out, 'ambiguous node refused', 'raise when both _output and _operation',
               'a node with both _output and _operation is not refused', fn=out, node=out.node)
     ctx.check(pairs == {'output': '_output', 'operation': '_operation'}, out,
